@@ -279,7 +279,8 @@ func vpWire(args []interface{}) [][]byte {
 	return out
 }
 
-var errVpConnRefused = errors.New("dial tcp: connect: connection refused")
+// what a caller sees when the target member's port is closed: a transport-level error (a net.Error), not a reply
+var errVpConnRefused error = &net.OpError{Op: "dial", Net: "tcp", Err: errors.New("connect: connection refused")}
 
 // vpProcess delivers one command to the member listening on addr.
 func vpProcess(addr string, ctx context.Context, cmd redis.Cmder) error {
